@@ -895,7 +895,11 @@ func (fr *Frame) evalCall(sc *Scope, x *ECall) Val {
 		}
 		fr.top.nbound++
 		bv := Term{fmt.Sprintf("%s!q%d", id.Name, fr.top.nbound), fr.mapKeySort(mt)}
-		body := fr.evalBool(sc.with(id.Name, Val{K: KKey, T: mt.Key(), C: []Term{bv}}), x.Args[2])
+		kv := Val{K: KKey, T: mt.Key(), C: []Term{bv}}
+		if isInteger(mt.Key()) {
+			kv = scalar(mt.Key(), bv) // integer keys are their own key terms: usable in arithmetic
+		}
+		body := fr.evalBool(sc.with(id.Name, kv), x.Args[2])
 		return scalar(boolT, Forall([]Term{bv}, body))
 	case "rootObj":
 		// rootObj(x): x's object is an allocation of its own (not an array embedded in a struct)
